@@ -16,6 +16,7 @@ P = {
  'C13': ("every schedule of K operations on the REAL QXmppPromise/QXmppTask/TaskPrivate (incl. the libstdc++ shared_ptr/std::function they instantiate): continuation exactly once with the value, never after the context died, no leak / use after free", "QPointer liveness is a ghost flag; K <= 3 quick / 4 thorough", "4 C13"),
  'C14': ("CRC-32 table code vs bitwise reference, HMAC structure vs RFC 2104 with a hash oracle, encode/decode round trip per attribute group, integrity/fingerprint acceptance and memory safety of decode on arbitrary bounded buffers", "QDataStream/QHostAddress/QByteArray models; SHA-1 as oracle", "4 C14"),
  'C15': ("decode under a key implies a verified MESSAGE-INTEGRITY (the fact handleDatagram relies on) and the RFC 5245 priority formulas", "the ICE pair state machine and the liveness half need sockets/timers/event loop: outside the claim", "4 C15"),
+ 'C16': ("one step of the real QXmppIncomingClient from an arbitrary private state: nothing is bound, answered or routed before authentication; a routed stanza carries the authenticated address; jid becomes non-empty only through an approved exchange for exactly the parsed user", "socket, timers, password checker, serializeXml and DIGEST-MD5 grammar are models/cuts; routing tables of QXmppServer outside; one recorded known finding (reply applied to the current exchange)", "4 C16"),
  'C19': ("receiver and sender of in-band bytestreams: one step from an arbitrary job state (accept iff sender, sid, state and 16-bit sequence match; close verdict iff size and hash match) plus two-block histories from the constructor state", "QIODevice, QCryptographicHash object and sendPacket are models; SOCKS5 transfers outside the claim", "4 C19"),
  'C20': ("the string handed to SHA-1 by verificationString is order- and duplicate-blind and equals a reference built by XEP-0115 5.1 inside the bound", "SHA-1 is a recording oracle; tiny alphabets", "4 C20"),
 }
